@@ -1,6 +1,7 @@
 package main
 
 import (
+	"strings"
 	"fmt"
 	"os"
 )
@@ -25,6 +26,10 @@ func main() {
 
 func cmdDump(args []string) {
 	pkg := roPath
+	if len(args) > 0 && strings.HasPrefix(args[0], "-pkg=") {
+		pkg = roPath + "/" + strings.TrimPrefix(args[0], "-pkg=")
+		args = args[1:]
+	}
 	w, err := loadWorld("/repo", []string{pkg})
 	if err != nil {
 		panic(err)
